@@ -6,7 +6,7 @@ import subprocess
 
 import vcheck as V
 
-GALLOC = os.path.join(V.HARNESS, "target", "debug", "galloc")
+GALLOC = os.path.join(V.TARGET, "debug", "galloc")
 SIZES = [0, 1, 2, 3, 7, 8, 16, 100, 4096, 65536, 10 ** 6, 3 * 10 ** 7]
 
 
